@@ -10,8 +10,8 @@ import (
 // Family "wkb" (C04).
 
 func wkbGen(r *rand.Rand, n int, tier string, emit func(Case)) {
-	for i := 0; i < n; i++ {
-		tg := &treeGen{r: r, simple: i%3 == 2, short: i%3 == 1}
+	for i := 0; i < n+bigExtra(n); i++ { // large sizes come last
+		tg := &treeGen{r: r, simple: i%3 == 2, short: i%3 == 1, big: i >= n}
 		kind := ""
 		if i < 28 {
 			kind = typeNames[i%7]
